@@ -73,7 +73,7 @@ class TH:
         if members is None:
             self.uni = None
         else:
-            mk = (tuple(members), tuple(hidden))
+            mk = (tuple(members), tuple(hidden), bool(getattr(self, "_falsy_uni", False)))
             if mk not in self._unis:
                 if hidden:
                     # a user universe class overriding the public `vertices` accessor: the listed members minus the hidden ones
@@ -81,7 +81,8 @@ class TH:
                     u_.fields["hidden"] = Seq([self.V[x] for x in hidden], "tuple")
                     self._unis[mk] = u_
                 else:
-                    self._unis[mk] = h.universe("U", [self.V[m] for m in members])
+                    # every other plain universe is of a user class whose truth value is False (the limit is given by `is not None`)
+                    self._unis[mk] = h.universe("U", [self.V[m] for m in members], "FalsyUni" if getattr(self, "_falsy_uni", False) else "Universe")
             self.uni = self._unis[mk]
         h.settle()
         return self.V
@@ -248,6 +249,7 @@ def sweep_job(job):
     groups = {}
     for mi, (inner, nbmap) in enumerate(chunk):
         vcls = "SymFalsyVert" if (base + mi) % 2 else "Vertex"    # a traversal never depends on the truth value of a vertex
+        th._falsy_uni = (base + mi) % 4 in (1, 2)      # a traversal never depends on the truth value of the universe either
         for members in (None, list(inner)):
             hidden = (inner[1],) if members is not None and len(inner) > 1 and (base + mi) % 3 == 2 else ()
             member = (lambda v: True) if members is None else (lambda v, m=set(members) - set(hidden): v in m)
@@ -268,7 +270,7 @@ def sweep_job(job):
                     elif ffr == "none":
                         base_form, base_settings = form, settings
                     n += 1
-                    rec = dict(map={v: list(l) for v, l in nbmap.items()}, universe=members, trav=tname, form=form, settings=settings, ff_result=ffr, hidden=list(hidden))
+                    rec = dict(map={v: list(l) for v, l in nbmap.items()}, universe=members, trav=tname, form=form, settings=settings, ff_result=ffr, hidden=list(hidden), falsy_uni=bool(th._falsy_uni and members is not None and not hidden))
                     try:
                         try:
                             r = eval_traversal(th, tname, form, nbmap, members, settings, ffr, vcls=vcls, hidden=hidden)
@@ -353,7 +355,9 @@ def replay_map(rec):
     for v, l in m.items():
         for w in l:
             L.append(f"explicit.link_directed(V[{v!r}], V[{w!r}])")
-    L.append(f"uni = {'None' if rec['universe'] is None else 'Universe(vertices=[V[n] for n in ' + repr(rec['universe']) + '])'}")
+    if rec.get("falsy_uni"):
+        L.append("class FalsyUni(Universe):\n    def __len__(self): return 0      # truth value False although it has members")
+    L.append(f"uni = {'None' if rec['universe'] is None else ('FalsyUni' if rec.get('falsy_uni') else 'Universe') + '(vertices=[V[n] for n in ' + repr(rec['universe']) + '])'}")
     mod, lst, gen, srch = TRAVS[rec["trav"]]
     fr = {"none": "None", "accept": "lambda v: True", "reject": "lambda v: False"}.get(rec.get("ff_result"), "lambda v: v.name != 'b'")
     L.append(f"print([v.name for v in {mod.split('.')[-1]}.{lst}(uni, V['a'], ff_result={fr})])   # expected {rec.get('want')}")
